@@ -33,8 +33,7 @@ TRUSTED = ["hand-written model Ebv.MapCalls of the buffer lengths and create_map
 ASSUMPTIONS = ["the kernel reads/writes exactly key_size / value_size bytes (per-CPU: roundup8(value_size) x possible CPUs) behind the pointers of "
                "BPF_MAP_LOOKUP/UPDATE/DELETE/GET_NEXT_KEY (uapi contract); a NULL key is allowed for GET_NEXT_KEY only",
                "Structure.data keeps the length the constructor / the library gave it (users do not assign shorter buffers)",
-               "register_sync_group is driven with the real lookup_elem (ENOENT surfaces as KeyError: no update/delete is reached) and with "
-               "C24's environment shim (ENOENT as OSError) to reach update/delete"]
+               "register_sync_group is driven on the program array FastEtherCat.connect creates (bus and XDP attach stubbed), randrange scripted"]
 RULE = ("declarations: array / per-CPU maps with 1..8 variables of any format (possible CPUs 1..130 independent of os.cpu_count(), online <= possible), "
         "hash-variable sets (1..8 variables, all formats incl. x; one 257-variable set), Dicts with 1..6 packed members per structure, sizes 1..40, "
         "lru or not, the program array; call sequences of 1..14 API calls (set/get, read, load/get/set, setitem/getitem/pop/del/iter, register with "
@@ -528,7 +527,7 @@ def gen(rng):
         case["calls"] = calls
     else:
         case["decl"] = {"kind": kind}
-        case["calls"] = [["register", rng.randint(0, 3), rng.random() < 0.5] for _ in range(rng.randint(1, 3))]
+        case["calls"] = [["register", rng.randint(0, 3)] for _ in range(rng.randint(1, 3))]
     return case
 
 
@@ -665,14 +664,6 @@ def run_progarray(K, case, attempt):
         ec.sync_groups = {}
         ec.addr = ("emu0",)
         asyncio.run(ec.connect())
-        real_lookup = saved[2]
-
-        def shim_lookup(fd, key, fmt):
-            try:
-                return real_lookup(fd, key, fmt)
-            except KeyError:
-                raise OSError(errno.ENOENT, "no such entry")
-
         class SG:
             file_descriptor = 9
 
@@ -686,13 +677,12 @@ def run_progarray(K, case, attempt):
             with ec.register_sync_group(SG()):
                 pass
             return "ok"
-        for _, occupied, shim in case["calls"]:
+        for _, occupied, *_ in case["calls"]:
             # occupy slots 0..occupied-1 through the real update_elem, then let randrange walk over them
             for i in range(occupied):
                 E.update_elem(ec.programs, struct.pack("<I", i), struct.pack("<I", 7))
             seq = iter(list(range(occupied)) + [occupied + 5] * 3)
             E.randrange = lambda n: next(seq)
-            E.lookup_elem = shim_lookup if shim else real_lookup
             ok = attempt(register)
             for i in range(occupied):
                 with contextlib.suppress(Exception):
@@ -729,7 +719,7 @@ def run(ctx):
         K, geo, outs, res = run_impl(c)
         ctx.case(c, nontrivial=bool(K.log), kind=c["decl"]["kind"])
         for r in res:
-            ctx.stats["outcome-" + r.split(" ")[0].lstrip("=")[:12]] += 1
+            ctx.stats["outcome-" + ("read" if r.startswith("=") else r.split(" ")[0])] += 1
         for cmd, *_ in K.log:
             ctx.stats["cmd-" + CMD.get(cmd, str(cmd))] += 1
         oracle(ctx, c, K, outs)
